@@ -533,6 +533,19 @@ pub fn expand(st: &Step, c: &mut Counters) -> Vec<Step> {
         s.extend_from_slice(&clean);
         push(c, "enum:duplicated_block", s);
     }
+    if fmt == 0 && ty == 6 {
+        // a 64-byte keypair (seed || matching public key) where a 32-byte seed is expected
+        let mut body = v.0.clone();
+        body.extend_from_slice(&refmodel::eddsa::public_key(&v.a32()));
+        let mut s = 64u64.to_le_bytes().to_vec();
+        s.extend_from_slice(&body);
+        push(c, "enum:keypair_for_seed", s);
+    }
+    if fmt == 1 && ty == 6 {
+        let mut body = v.0.clone();
+        body.extend_from_slice(&refmodel::eddsa::public_key(&v.a32()));
+        push(c, "enum:keypair_for_seed", canonical_stream(ty, &body, 1));
+    }
     if fmt == 0 && is_bytes_type(ty) {
         // length prefix says more / fewer bytes than present, with matching and non-matching payloads
         for l in [0u64, 1, 31, 33, 64, 255, 1 << 20, u64::MAX] {
@@ -626,6 +639,11 @@ pub fn expand(st: &Step, c: &mut Counters) -> Vec<Step> {
         ];
         for k in 0..19u64 {
             specials.push(crate::dict::p_plus(k));
+        }
+        // structured neighbours of l, deterministic per record
+        let mut r = simcore::Prng::new(simcore::fnv1a(&v.0) ^ 0x6e6c);
+        for _ in 0..24 {
+            specials.push(crate::dict::near_l_structured(&mut r));
         }
         let n0 = specials.len();
         for i in 0..n0 {
